@@ -206,6 +206,92 @@ def pdu_numbers(out):
     out["Pdu"] = d
 
 
+
+def schema_reflect():
+    """reflection over every TLVStruct subclass of the package (needs the package importable: run under /venv/bin/python)"""
+    import dataclasses
+    import enum
+    import importlib
+    import pkgutil
+    import typing
+    from collections import abc
+    if REPO not in sys.path:
+        sys.path.insert(0, REPO)
+    try:
+        import bleak  # noqa: F401  (BLE support is decided at import time)
+    except Exception:
+        pass
+    import aiohomekit
+    from aiohomekit import tlv8 as T
+    for m in pkgutil.walk_packages(aiohomekit.__path__, "aiohomekit."):
+        if m.name.endswith("__main__") or ".testing" in m.name or "pytest_plugin" in m.name:
+            continue
+        try:
+            importlib.import_module(m.name)
+        except Exception:
+            pass
+    sizes = {T.u8: 1, T.u16: 2, T.u32: 4, T.u64: 8, T.u128: 16}
+    classes = []
+    seen = set()
+
+    def walk(c):
+        for sub in c.__subclasses__():
+            if sub not in seen:
+                seen.add(sub)
+                if dataclasses.is_dataclass(sub) and sub.__module__.startswith("aiohomekit"):
+                    classes.append(sub)
+                walk(sub)
+    walk(T.TLVStruct)
+    classes.sort(key=lambda c: (c.__module__, c.__qualname__))
+
+    def fty(tp):
+        if typing.get_origin(tp) is abc.Sequence:
+            inner = tp.__args__[0]
+            if isinstance(inner, type) and issubclass(inner, T.TLVStruct):
+                return ["seq", sch(inner)]
+            if inner is T.u16:
+                return ["sequ16"]
+            raise Shape(f"unsupported sequence element {inner}")
+        if tp in sizes:
+            return ["u", sizes[tp]]
+        if tp is T.bu16:
+            return ["bu16"]
+        if tp is str:
+            return ["str"]
+        if tp is bytes:
+            return ["bytes"]
+        if isinstance(tp, type) and issubclass(tp, enum.IntEnum):
+            return ["enum", sorted(int(m) for m in tp)]
+        if isinstance(tp, type) and issubclass(tp, T.TLVStruct):
+            return ["struct", sch(tp)]
+        raise Shape(f"unsupported field type {tp}")
+
+    def resolve(cls):
+        try:
+            return typing.get_type_hints(cls)
+        except Exception:
+            return {}
+
+    def sch(cls):
+        hints = resolve(cls)
+        out = []
+        for f in dataclasses.fields(cls):
+            if not f.init:
+                continue
+            tp = hints.get(f.name, f.type)
+            if tp is float:
+                continue  # no (de)serialiser exists for float fields; never set by the library
+            out.append([f.name, int(f.metadata["tlv_type"]), fty(tp)])
+        return out
+
+    return [[c.__module__ + "." + c.__qualname__, sch(c)] for c in classes]
+
+
+@extractor
+def schemas(out):
+    out["Schemas"] = schema_reflect()
+
+
 # --------------------------------------------------------------------------- emission
 
 def emit(out):
@@ -263,6 +349,40 @@ def emit_pdu(out, files):
             lines.append(f"def {k} : List String := {lean_list(v, lean_str)}")
     lines.append("end HapVerif.Gen.Pdu")
     files["Pdu.lean"] = "\n".join(lines) + "\n"
+
+
+def lean_fty(t):
+    k = t[0]
+    if k == "u":
+        return f".uint {t[1]}"
+    if k == "bu16":
+        return ".buint16"
+    if k in ("str", "bytes"):
+        return "." + k
+    if k == "enum":
+        return f".enum {lean_list(t[1])}"
+    if k == "struct":
+        return f".struct ({lean_schema(t[1])})"
+    if k == "seq":
+        return f".seqStruct ({lean_schema(t[1])})"
+    if k == "sequ16":
+        return ".seqU16"
+    raise Shape(str(t))
+
+
+def lean_schema(fields):
+    return ".mk [" + ", ".join(f"({tt}, {lean_fty(ft)})" for _, tt, ft in fields) + "]"
+
+
+@emitter
+def emit_schemas(out, files):
+    lines = ["import HapVerif.Model.Tlv8Struct", "/-! GENERATED by tools/translate.py by reflection over every TLVStruct subclass - do not edit. -/",
+             "namespace HapVerif.Gen.Schemas", "open HapVerif.Tlv8", "def all : List (String × Schema) := ["]
+    rows = [f"  ({lean_str(name)}, {lean_schema(fields)})" for name, fields in out["Schemas"]]
+    lines.append(",\n".join(rows))
+    lines.append("]")
+    lines.append("end HapVerif.Gen.Schemas")
+    files["Schemas.lean"] = "\n".join(lines) + "\n"
 
 
 def main():
